@@ -85,6 +85,69 @@ func c42EphPub(seed uint8) (pub, priv [32]byte) {
 	return
 }
 
+// c42Wire is one transport write observed on the wire together with the plaintext chunk the writer
+// was sealing at that moment.
+type c42Wire struct {
+	seg   hSeg
+	chunk []byte
+	off   int // stream offset of chunk
+}
+
+// c42FaultyWrites performs the writes on sc while q (the queue sc's conn writes into) injects the
+// drawn transport faults, the caller carrying on with the next write after a failed one. A failed
+// Write is legitimate (also: every later Write may be refused); what reached the wire is returned.
+func c42FaultyWrites(sc *conn.SecretConnection, q *hQueue, faults []hFault, data []byte, sizes []int) (wire []c42Wire, faultHit bool, err error) {
+	q.arm(faults)
+	off := 0
+	for _, w := range sizes {
+		before := len(q.segments())
+		n, werr := sc.Write(data[off : off+w])
+		segs := q.segments()[before:]
+		hitNow := false
+		for j, sg := range segs {
+			lo := j * c42DataMax
+			if lo >= w {
+				return nil, faultHit, fmt.Errorf("Write(%d bytes) made %d transport writes, framing allows %d", w, len(segs), (w+c42DataMax-1)/c42DataMax)
+			}
+			hi := lo + c42DataMax
+			if hi > w {
+				hi = w
+			}
+			if sg.full != c42Sealed {
+				return nil, faultHit, fmt.Errorf("transport write of %d bytes, sealed frames have %d", sg.full, c42Sealed)
+			}
+			wire = append(wire, c42Wire{sg, data[off+lo : off+hi], off + lo})
+			hitNow = hitNow || sg.failed
+		}
+		faultHit = faultHit || hitNow
+		if werr == nil && (n != w || hitNow || len(segs) != (w+c42DataMax-1)/c42DataMax) {
+			return nil, faultHit, fmt.Errorf("Write(%d bytes) = %d, nil with %d transport writes (fault in this call: %v)", w, n, len(segs), hitNow)
+		}
+		if werr != nil && !faultHit {
+			return nil, faultHit, fmt.Errorf("Write(%d bytes) = %d, %v although no transport write has failed", w, n, werr)
+		}
+		if n < 0 || n > w {
+			return nil, faultHit, fmt.Errorf("Write(%d bytes) returned n=%d", w, n)
+		}
+		off += w
+	}
+	return wire, faultHit, nil
+}
+
+func c42DrawFaults(rt *rapid.T) []hFault {
+	g := rapid.Custom(func(rt *rapid.T) hFault {
+		f := hFault{At: rapid.IntRange(0, 9).Draw(rt, "at"), Keep: -1}
+		switch rapid.IntRange(0, 4).Draw(rt, "keepkind") {
+		case 0:
+			f.Keep = 0
+		case 1:
+			f.Keep = rapid.IntRange(1, c42Sealed-1).Draw(rt, "keep")
+		}
+		return f
+	})
+	return rapid.SliceOfN(g, 1, 3).Draw(rt, "wfaults")
+}
+
 // ---------------------------------------------------------------------------
 // TestC42_Stream
 
@@ -105,6 +168,7 @@ type c42Stream struct {
 	Reads   []int    `json:"reads"`    // read buffer sizes, cycled
 	Adv     []c42Adv `json:"adv"`
 	Rounds  int      `json:"rounds"` // clean channel: split the writes into this many write/read rounds
+	WFaults []hFault `json:"w_faults,omitempty"` // transport faults under A's writes (no frame adversary then)
 }
 
 type c42HS struct {
@@ -264,7 +328,7 @@ func c42StreamExec(ctx *vk.Ctx, c c42Stream) error {
 		}
 		off += w
 	}
-	if len(c.Adv) == 0 {
+	if len(c.Adv) == 0 && len(c.WFaults) == 0 {
 		// clean channel, possibly in several write/read rounds, plus the reverse direction
 		rounds := c.Rounds
 		if rounds < 1 {
@@ -315,6 +379,37 @@ func c42StreamExec(ctx *vk.Ctx, c c42Stream) error {
 		ctx.NTIf(boundary && total > c42DataMax)
 		ctx.ClassIf(total > c42DataMax, "clean-multi-frame")
 		ctx.ClassIf(total == 0, "clean-empty")
+		return nil
+	}
+	if len(c.WFaults) > 0 {
+		// ---- transport faults under the writer: some transport write puts its bytes (or a prefix) on
+		// the wire and reports an error; the writer carries on. The reader may only ever return the
+		// plaintext of the frames that are on the wire, in wire order.
+		wire, hit, err := c42FaultyWrites(ra.sc, ab, c.WFaults, data, c.Writes)
+		if err != nil {
+			return fmt.Errorf("a->b with transport faults %+v: %v", c.WFaults, err)
+		}
+		var onWire []byte
+		for _, wr := range wire {
+			if len(wr.seg.b) == 0 {
+				continue // nothing of this frame reached the wire: the stream is not torn
+			}
+			if len(wr.seg.b) != c42Sealed {
+				break // a torn frame: nothing after it can be trusted by the reader
+			}
+			onWire = append(onWire, wr.chunk...)
+		}
+		got, rerr := readAll(rb.sc, -1)
+		if rerr == nil {
+			return fmt.Errorf("harness: reader stopped without error")
+		}
+		if len(got) > len(onWire) || !bytes.Equal(got, onWire[:len(got)]) {
+			return fmt.Errorf("transport faults %+v: reader delivered %d bytes; the intact frames on the wire carry %d bytes; first byte that was not sent in that position: %d; final error %v", c.WFaults, len(got), len(onWire), c42Diff(got, onWire), rerr)
+		}
+		ctx.NTIf(hit)
+		ctx.ClassIf(hit, "write-fault-hit")
+		ctx.ClassIf(hit && len(got) == len(onWire), "write-fault-all-wire-frames-delivered")
+		ctx.ClassIf(!hit, "write-fault-beyond-stream")
 		return nil
 	}
 	// ---- adversary on the sealed frames in flight ----
@@ -534,6 +629,10 @@ func c42StreamDraw(rt *rapid.T) c42Stream {
 			c.Reads = append(c.Reads, rapid.IntRange(1, 1500).Draw(rt, "rm"))
 		}
 	}
+	if rapid.IntRange(0, 4).Draw(rt, "faultkind") == 0 {
+		c.WFaults = c42DrawFaults(rt)
+		return c
+	}
 	if rapid.Bool().Draw(rt, "attack") {
 		advGen := rapid.Custom(func(rt *rapid.T) c42Adv {
 			return c42Adv{
@@ -553,7 +652,7 @@ func c42StreamDraw(rt *rapid.T) c42Stream {
 func TestC42_Stream(t *testing.T) {
 	vk.Run(t, vk.Spec[c42Stream]{
 		ID: "C42", Name: "TestC42_Stream",
-		Rule: "rapid: two SecretConnection endpoints over the harness pipe; identity keys from seeds; A writes 0-20 KB in 0-8 writes sized around the 1024-byte frame (exact, +-1, 2x, tiny, several KB), B reads with 1-4 cycled buffer sizes (1..5000), B also writes back; adversary either on the handshake (ephemeral key replaced by another valid key or by a low-order point with/without the ignored top bit, one key bit flipped, one bit of the sealed auth frame flipped) or 1-3 edits of the sealed frames queued in the pipe (bit flip, swap, replay, drop, truncate mid-frame, reflect a frame of the reverse direction, replay the handshake auth frame, garbage frame); non-trivial = clean stream crossing a frame boundary inside a write, an edit placed after >=1 valid frame, or any handshake attack",
+		Rule: "rapid: two SecretConnection endpoints over the harness pipe; identity keys from seeds; A writes 0-20 KB in 0-8 writes sized around the 1024-byte frame (exact, +-1, 2x, tiny, several KB), B reads with 1-4 cycled buffer sizes (1..5000), B also writes back; adversary either on the handshake (ephemeral key replaced by another valid key or by a low-order point with/without the ignored top bit, one key bit flipped, one bit of the sealed auth frame flipped) or 1-3 edits of the sealed frames queued in the pipe (bit flip, swap, replay, drop, truncate mid-frame, reflect a frame of the reverse direction, replay the handshake auth frame, garbage frame), or 1-3 transport faults under the writer (the k-th transport write puts all / a prefix / none of its bytes on the wire and reports an error, the writer carries on): the reader may only return plaintext of intact wire frames in wire order; non-trivial = a transport fault that was hit, clean stream crossing a frame boundary inside a write, an edit placed after >=1 valid frame, or any handshake attack",
 		Draw: c42StreamDraw,
 		Exec: c42StreamExec,
 	})
@@ -573,6 +672,7 @@ type c42Raw struct {
 	Reads    []int  `json:"reads"`
 	BadFrame string `json:"bad_frame"` // none | overlen | wrongnonce | wrongkey
 	BadAt    int    `json:"bad_at"`
+	WFaults  []hFault `json:"w_faults,omitempty"` // transport faults under the endpoint's writes
 }
 
 type c42RawSession struct {
@@ -799,40 +899,53 @@ func c42RawExec(ctx *vk.Ctx, c c42Raw) error {
 		total += w
 	}
 	data := c42Data(total, 0x17)
-	off := 0
-	for _, w := range c.Writes {
-		n, err := r.sc.Write(data[off : off+w])
-		if err != nil || n != w {
-			return fmt.Errorf("Write(%d) = %d, %v", w, n, err)
-		}
-		// exact framing: ceil(w/1024) frames, each opened with the next nonce by the independent code
-		for rest := w; rest > 0; {
-			k := rest
-			if k > c42DataMax {
-				k = c42DataMax
-			}
-			sealed, err := c42ReadN(toPeer, c42Sealed)
-			if err != nil {
-				return fmt.Errorf("write of %d bytes: expected another sealed frame for %d remaining bytes: %v", w, rest, err)
-			}
-			plain, err := s.open(sealed)
-			if err != nil {
-				return fmt.Errorf("frame for stream offset %d does not open with the session key and nonce %d: %v", off+w-rest, s.recvN, err)
-			}
-			want := data[off+w-rest : off+w-rest+k]
-			if !bytes.Equal(plain, want) {
-				return fmt.Errorf("frame for stream offset %d carries %d bytes, want %d; first difference at %d", off+w-rest, len(plain), k, c42Diff(plain, want))
-			}
-			if k >= 16 && bytes.Contains(sealed, want[:16]) {
-				return fmt.Errorf("sealed frame for stream offset %d contains its plaintext", off+w-rest)
-			}
-			rest -= k
-		}
-		if n := len(toPeer.pending()); n != 0 {
-			return fmt.Errorf("write of %d bytes left %d extra sealed bytes", w, n)
-		}
-		off += w
+	// Every transport write is observed on the wire. Each complete sealed frame - also one whose
+	// transport write was reported as failed - must open under the session key with a counter nonce
+	// that is larger than every nonce seen before (never two wire frames under one nonce) and must
+	// carry exactly the plaintext chunk the endpoint was writing. Without faults that also pins the
+	// exact framing (ceil(n/1024) frames per Write) and the consecutive nonce sequence.
+	wire, hit, err := c42FaultyWrites(r.sc, toPeer, c.WFaults, data, c.Writes)
+	if err != nil {
+		return fmt.Errorf("endpoint->raw (transport faults %+v): %v", c.WFaults, err)
 	}
+	aead, _ := chacha20poly1305.New(s.recv[:])
+	last := uint64(0) // nonce 0 sealed the auth frame
+	torn := 0
+	for i, wr := range wire {
+		if len(wr.seg.b) != c42Sealed {
+			torn++
+			continue
+		}
+		found, nonce := false, uint64(0)
+		var frame []byte
+		for k := uint64(0); k <= last+uint64(torn)+3; k++ {
+			if f, err := aead.Open(nil, c42Nonce(k), wr.seg.b, nil); err == nil {
+				found, nonce, frame = true, k, f
+				break
+			}
+		}
+		if !found {
+			return fmt.Errorf("wire frame %d (stream offset %d) opens under no counter nonce <= %d with the session key (faults %+v)", i, wr.off, last+uint64(torn)+3, c.WFaults)
+		}
+		if nonce <= last {
+			return fmt.Errorf("nonce reuse: wire frame %d (stream offset %d, transport write failed=%v) is sealed under counter %d, which already sealed an earlier frame on the wire (last counter used %d; faults %+v)", i, wr.off, wr.seg.failed, nonce, last, c.WFaults)
+		}
+		if !hit && nonce != last+1 {
+			return fmt.Errorf("wire frame %d sealed under counter %d, expected %d", i, nonce, last+1)
+		}
+		last = nonce
+		n := binary.LittleEndian.Uint32(frame)
+		if int(n) != len(wr.chunk) || !bytes.Equal(frame[4:4+n], wr.chunk) {
+			return fmt.Errorf("wire frame %d for stream offset %d declares %d bytes, the endpoint was writing %d there; first difference at %d", i, wr.off, n, len(wr.chunk), c42Diff(frame[4:], wr.chunk))
+		}
+		if len(wr.chunk) >= 16 && bytes.Contains(wr.seg.b, wr.chunk[:16]) {
+			return fmt.Errorf("sealed frame for stream offset %d contains its plaintext", wr.off)
+		}
+	}
+	toPeer.setPending(nil)
+	ctx.ClassIf(hit, "write-fault-hit")
+	ctx.ClassIf(hit && torn > 0, "write-fault-torn-frame")
+	ctx.ClassIf(len(c.WFaults) > 0 && !hit, "write-fault-beyond-stream")
 	ctx.ClassIf(total > c42DataMax, "ep-to-raw-multi-frame")
 	// raw -> endpoint: frames with chosen payload lengths (incl. 0 and 1024), then possibly a bad frame
 	var want []byte
@@ -928,6 +1041,9 @@ func c42RawDraw(rt *rapid.T) c42Raw {
 	for i := 0; i < nr; i++ {
 		c.Reads = append(c.Reads, rapid.SampledFrom([]int{1, 2, 7, 512, 1023, 1024, 1025, 3000}).Draw(rt, "r"))
 	}
+	if rapid.IntRange(0, 2).Draw(rt, "wfaultkind") == 0 {
+		c.WFaults = c42DrawFaults(rt)
+	}
 	if rapid.IntRange(0, 2).Draw(rt, "badkind") == 0 {
 		c.BadFrame = rapid.SampledFrom([]string{"overlen", "wrongnonce", "wrongkey"}).Draw(rt, "bad")
 		c.BadAt = rapid.IntRange(0, 6).Draw(rt, "badat")
@@ -939,7 +1055,7 @@ func c42RawDraw(rt *rapid.T) c42Raw {
 func TestC42_RawPeer(t *testing.T) {
 	vk.Run(t, vk.Spec[c42Raw]{
 		ID: "C42", Name: "TestC42_RawPeer",
-		Rule: "rapid: one SecretConnection endpoint against an independent implementation of the wire protocol (hand-encoded messages, X25519+HKDF-SHA256 key schedule, ChaCha20-Poly1305 frames with counter nonces); honest sessions check mutual authentication, the endpoint's signature over the derived challenge, exact framing and nonce sequence of every write, that sealed bytes do not contain the plaintext, and delivery of raw-made frames of length 0..1024 followed optionally by an authentic over-length frame, a wrong-nonce frame or a frame under the other direction's key; attack sessions present a signature over another challenge, another identity, a corrupted or short signature, a signed identity relayed from a different session (man in the middle), or a low-order ephemeral point with/without the ignored top bit; non-trivial = an attack session, or an honest session that carried data",
+		Rule: "rapid: one SecretConnection endpoint against an independent implementation of the wire protocol (hand-encoded messages, X25519+HKDF-SHA256 key schedule, ChaCha20-Poly1305 frames with counter nonces); honest sessions check mutual authentication, the endpoint's signature over the derived challenge, exact framing and nonce sequence of every write, under 1-3 drawn transport write faults (bytes reach the wire fully or partly, the write reports an error, the endpoint keeps writing) that every complete frame on the wire opens under a strictly larger counter nonce than all before it (no nonce reuse) and carries the chunk being written, that sealed bytes do not contain the plaintext, and delivery of raw-made frames of length 0..1024 followed optionally by an authentic over-length frame, a wrong-nonce frame or a frame under the other direction's key; attack sessions present a signature over another challenge, another identity, a corrupted or short signature, a signed identity relayed from a different session (man in the middle), or a low-order ephemeral point with/without the ignored top bit; non-trivial = an attack session, or an honest session that carried data",
 		Draw: c42RawDraw,
 		Exec: c42RawExec,
 	})
